@@ -148,7 +148,7 @@ class RenameFields(Proc):
     name = 'rename_fields'
 
     def gen(self, rng, desc, rows, collide=False):
-        names = all_field_names(desc)
+        names = all_field_names(desc) or ['a']
         k = rng.random()
         if k < 0.5:
             srcs = rng.sample(names, rng.randint(1, min(2, len(names))))
@@ -251,7 +251,7 @@ class SetPrimaryKey(Proc):
     name = 'set_primary_key'
 
     def gen(self, rng, desc, rows):
-        names = all_field_names(desc)
+        names = all_field_names(desc) or ['a']
         return {'pk': rng.sample(names, rng.randint(1, min(2, len(names)))), 'sel': gen_sel(rng, res_names(desc))}
 
     def real(self, a):
@@ -308,7 +308,7 @@ class Unpivot(Proc):
             regex = True
             eks = [{'name': 'year', 'type': 'string'}, {'name': 'kind', 'type': 'string'}]
         elif k < 0.7:
-            names = all_field_names(desc)
+            names = all_field_names(desc) or ['a']
             pick = rng.sample(names, rng.randint(1, min(2, len(names))))
             ufs = [{'name': n, 'keys': {'k': n, 'n': i}} for i, n in enumerate(pick)]
             regex = False
@@ -346,7 +346,7 @@ class Concatenate(Proc):
     name = 'concatenate'
 
     def gen(self, rng, desc, rows):
-        names = all_field_names(desc)
+        names = all_field_names(desc) or ['a']
         tgt = {}
         used = set()
         for i in range(rng.randint(1, 3)):
